@@ -2,7 +2,6 @@ import QuantemModel.Model.SerializeSpec
 import QuantemModel.Lemmas.SerializeCanon
 import QuantemModel.Lemmas.SeqKeys
 import QuantemModel.Lemmas.SerializeExt
-import QuantemModel.Generated.SerializeDispatch
 /-!
 C01 — serializer round-trip fidelity, for the executable model of serialize.py
 (Model/Serialize.lean).  Only property theorems and non-vacuity examples live here.
@@ -638,34 +637,24 @@ example : resolveSave (fun p => (fsGet (hrun [] []).1 p).isSome) { hB with level
     resolveSave (fun p => (fsGet (hrun [] ([] ++ [HOp.save hObj { hB with level := some 9 }])).1 p).isSome) hA = .ok ("dir", "/d/run1") := by
   decide
 
-/-! ### the type-dispatch chain of `_serialize_value` (`Model/SerializeDispatch.lean`,
-`Generated/SerializeDispatch.lean` — the latter regenerated from the source on every run) -/
+/-! ### the type-dispatch chain of `_serialize_value` (`Model/SerializeDispatch.lean`).  The theorems that tie
+the chain translated from the current source (`Generated/SerializeDispatch.lean`) to this model live in
+`Props/C01Tie.lean` (audited on its own; nothing here or in Props/C14 depends on the generated file). -/
 
 section Dispatch
-open QuantemModel.SerDispatch QuantemModel.Generated.SerializeDispatch
+open QuantemModel.SerDispatch
 
-private theorem ite_cond_congr {α : Type} (c c' : Bool) (a x y : α) (hc : c = c') (h : x = y) :
-    (if c then a else x) = (if c' then a else y) := by subst hc; subst h; rfl
-
-/-- **the chain in the source is the modelled chain**: the if/elif chain translated mechanically
-from the current `_serialize_value` equals the hand model for EVERY combination of the 30 facts
-(proved test by test, each test up to Boolean equivalence, so reordered conjuncts / type tuples,
-De Morgan forms and temporaries in the source do not matter) -/
-theorem generated_dispatch_eq_model (f : Feat) : dispatchGen f = dispatch f := by
-  unfold dispatchGen dispatch
-  repeat' (first | rfl | apply ite_cond_congr)
-  all_goals (first | grind | (simp [Bool.and_comm, Bool.or_comm, Bool.and_left_comm, Bool.or_left_comm]; done))
-
-/-- **every supported value kind reaches its own branch** — stated about the translated source
-itself: tensors and Parameters (which also live in a torch module and have `dtype`/`item`),
-optimizers and schedulers (torch modules by name), `torch.Generator` (module branch, not the
-`get_state` branch), arrays incl. 0-d (not the NumPy-scalar duck test), `bool` / `np.float64` /
-`np.str_` (Python scalars), the other NumPy reals (`.item()`), complex scalars (fallback), paths,
-AutoSerialize objects, list/tuple/dict, set, generators, and the dill fallback kinds -/
-theorem generated_dispatch_kind : ∀ k, dispatchGen (featOf k) = branchOf k := by
+/-- **every supported value kind reaches its own branch**: tensors and Parameters (which also live in a torch
+module and have `dtype`/`item`), optimizers and schedulers (torch modules by name), `torch.Generator` (module
+branch, not the `get_state` branch), arrays incl. 0-d (not the NumPy-scalar duck test), `bool` / `np.float64` /
+`np.str_` (Python scalars), the other NumPy reals (`.item()`), complex scalars (fallback), paths, AutoSerialize
+objects, list/tuple/dict, set, generators, and the dill fallback kinds -/
+theorem dispatch_kind : ∀ k, dispatch (featOf k) = branchOf k := by
   intro k; cases k <;> rfl
 
-theorem dispatch_kind : ∀ k, dispatch (featOf k) = branchOf k := by
+/-- the facts of every value kind satisfy the relations that hold for all Python objects (`Consistent`), so
+the tie theorems of `Props/C01Tie.lean`, stated for consistent fact vectors, apply to every kind -/
+theorem featOf_consistent : ∀ k, Consistent (featOf k) = true := by
   intro k; cases k <;> rfl
 
 /-- the chain is "first test that holds, in the code's order" … -/
@@ -742,7 +731,7 @@ theorem encode_follows_dispatch (v : Val) (h : v ≠ .torchRng) :
   | dict kvs => simp [encode, nodeObs, kindOf, branchOf, obsOf, ftrue, fget]
   | obj c a => simp [encode, nodeObs, kindOf, branchOf, obsOf, ftrue, fget]
 
-example : dispatchGen (featOf .parameter) = .tensor := rfl
+example : dispatch (featOf .parameter) = .tensor := rfl
 example : dispatch { hasDtype := true, hasItem := true, isNdarray := true, isSet := true } = .ndarray := rfl
 example : nodeObs (encode {} (.set [.scalar (.int 1)])) = "set" := by
   rw [encode_follows_dispatch _ (by simp)]; rfl
